@@ -58,6 +58,7 @@ abbrev Spec (T K V : Type) := T → K → Option V
 /-- result codes -/
 inductive Res where
   | ok | exists_ | notFound | invalid
+  | parentNotFound | wrongType | cycle   -- tree-shaped stores (dashboards / folders)
   deriving DecidableEq, Repr
 
 namespace Spec
@@ -360,5 +361,341 @@ def Clean : St → List Op → Bool
   | st, op :: r => stepClean st op && Clean (step st op).1 r
 
 end Alias
+
+/-! ## dashboards and folders (pkg/dashboards/dashboards.go, folders.go)
+
+One `folder_structure[-<org>].json` per org: `items` (id ↦ name, type, parent id) and `order`
+(folder id ↦ ordered child ids); one `details/<id>.json` per dashboard — NOT per org, addressed by id only
+(`getDashboardDetailsPath`).  There is no in-memory state: every operation reads and rewrites the files.
+Ids are UUIDs in the code, consecutive numbers here (0 = "root-folder"); the harness numbers the UUIDs in
+creation order.  Mirrors createDashboard :98, toggleFavorite :179, getDashboard :218 with
+refreshFolderMetadata :247 (a READ that rewrites the details file when the stored folder path is stale),
+updateDashboard :318 (no check that the id is a dashboard), deleteDashboard :426, createFolder :258,
+getFolderContents :310, updateFolder :392 (no check that the id is a folder; the duplicate-name test looks
+at siblings of ANY type), deleteFolder :509 with collectItemsToDelete :566, listItems :589.
+The default dashboards (`defaultDBs/`, relative to the working directory) are absent. -/
+namespace Dash
+
+inductive Ty where
+  | folder | dash
+  deriving DecidableEq, Repr
+
+structure Item where
+  name : Key
+  ty : Ty
+  /-- `ParentID`; none = "" (only the root folder) -/
+  parent : Option Nat
+  deriving DecidableEq
+
+/-- one folder-structure file -/
+structure FS where
+  items : AL Nat Item
+  order : AL Nat (List Nat)
+  deriving DecidableEq
+
+/-- one details file (the fields the harness writes and reads) -/
+structure Det where
+  name : Key
+  payload : String          -- "description"
+  fid : Nat                 -- folder.id
+  fname : Key               -- folder.name
+  path : Key                -- folder.path  (names joined with '/')
+  crumbs : List Nat         -- folder.breadcrumbs (ids, top down)
+  fav : Bool                -- isFavorite
+  deriving DecidableEq
+
+structure St where
+  fs : Nat → FS
+  det : AL Nat Det
+  next : Nat
+
+def rootItem : Item := { name := [82, 111, 111, 116], ty := .folder, parent := none }   -- "Root"
+def initFS : FS := { items := [(0, rootItem)], order := [(0, [])] }
+def init : St := { fs := fun _ => initFS, det := [], next := 1 }
+
+inductive Op where
+  | createDash (t : Nat) (name : Key) (payload : String) (parent : Nat)
+  | createFolder (t : Nat) (name : Key) (parent : Nat)
+  | updateDash (t : Nat) (id : Nat) (name : Key) (payload : String) (newParent : Option Nat)
+  | updateFolder (t : Nat) (id : Nat) (name : Option Key) (newParent : Option Nat)   -- name none = "" (unchanged)
+  | deleteDash (t : Nat) (id : Nat)
+  | deleteFolder (t : Nat) (id : Nat)
+  | getDash (t : Nat) (id : Nat)
+  | contents (t : Nat) (id : Nat)
+  | list (t : Nat)
+  | favorite (t : Nat) (id : Nat)
+  | restart
+
+/-- one row of listItems -/
+structure Row where
+  id : Nat
+  name : Key
+  ty : Ty
+  parent : Option Nat
+  parentName : Key
+  fullPath : Key
+  fav : Bool
+  payload : String
+  deriving DecidableEq
+
+inductive Out where
+  | res (r : Res)
+  | created (id : Nat)
+  | dash (d : Det)
+  | folder (name : Key) (ty : Ty) (children : List (Nat × Key × Ty × Nat)) (crumbs : List Nat)
+  | rows (l : List Row)
+  | fav (b : Bool)
+  | restarted
+  deriving DecidableEq
+
+def joinPath : List Key → Key
+  | [] => []
+  | [a] => a
+  | a :: r => a ++ [47] ++ joinPath r
+
+/-- names from below the root down to `cur` (`buildFolderPath` / `getFullPath` loop) -/
+def pathNames (fs : FS) : Nat → Option Nat → List Key
+  | 0, _ => []
+  | _ + 1, none => []
+  | f + 1, some cur =>
+    if cur = 0 then [] else
+    match fs.items.get cur with
+    | none => []
+    | some it => pathNames fs f it.parent ++ [it.name]
+
+def fuel (fs : FS) : Nat := fs.items.length + 1
+
+def folderPath (fs : FS) (fid : Nat) : Key := joinPath (pathNames fs (fuel fs) (some fid))
+
+/-- `generateBreadcrumbs`: ids from the top down to `cur` (the root included) -/
+def crumbs (fs : FS) : Nat → Option Nat → List Nat
+  | 0, _ => []
+  | _ + 1, none => []
+  | f + 1, some cur =>
+    match fs.items.get cur with
+    | none => []
+    | some it => crumbs fs f it.parent ++ [cur]
+
+/-- `wouldCreateCircularReference`: walking up from `cur` meets `folder` (or never ends) -/
+def reaches (fs : FS) (folder : Nat) : Nat → Option Nat → Bool
+  | 0, _ => true
+  | _ + 1, none => false
+  | f + 1, some cur =>
+    if cur = folder then true else
+    match fs.items.get cur with
+    | none => false
+    | some it => reaches fs folder f it.parent
+
+/-- `collectItemsToDelete` -/
+def collect (fs : FS) : Nat → Nat → List Nat
+  | 0, id => [id]
+  | f + 1, id =>
+    id :: ((fs.order.get id).getD []).flatMap (fun c =>
+      match fs.items.get c with
+      | none => []
+      | some it => if it.ty = .folder then collect fs f c else [c])
+
+def setFS (st : St) (t : Nat) (fs : FS) : St := { st with fs := upd st.fs t fs }
+
+/-- a sibling (child of `parent` in `order`) other than `self` with this name and, if given, this type -/
+def nameTaken (fs : FS) (parent : Nat) (name : Key) (ty : Option Ty) (self : Option Nat) : Bool :=
+  ((fs.order.get parent).getD []).any (fun c =>
+    match fs.items.get c with
+    | none => false
+    | some it => (match ty with | some ty => decide (it.ty = ty) | none => true) && decide (it.name = name) && decide (some c ≠ self))
+
+def folderMeta (fs : FS) (d : Det) (fid : Nat) : Det :=
+  { d with fid := fid, fname := ((fs.items.get fid).map (·.name)).getD [], path := folderPath fs fid,
+           crumbs := crumbs fs (fuel fs) (some fid) }
+
+/-- `getDashboard` incl. `refreshFolderMetadata` -/
+def getDash (st : St) (t : Nat) (id : Nat) : St × Option Det :=
+  match st.det.get id with
+  | none => (st, none)
+  | some d =>
+    let fs := st.fs t
+    match fs.items.get id with
+    | none => (st, some d)
+    | some it =>
+      match it.parent with
+      | none => (st, some d)     -- folderID "" is not an item
+      | some fid =>
+        match fs.items.get fid with
+        | none => (st, some d)
+        | some _ =>
+          if d.path = folderPath fs fid then (st, some d) else
+          let d' := folderMeta fs d fid
+          ({ st with det := st.det.put id d' }, some d')
+
+def step (st : St) : Op → St × Out
+  | .createDash t name payload parent =>
+    let fs := st.fs t
+    if name = [] then (st, .res .invalid) else
+    match fs.items.get parent with
+    | none => (st, .res .parentNotFound)
+    | some p =>
+      if p.ty ≠ .folder then (st, .res .wrongType) else
+      if nameTaken fs parent name (some .dash) none then (st, .res .exists_) else
+      let id := st.next
+      let fs' : FS := { items := fs.items.put id { name := name, ty := .dash, parent := some parent },
+                        order := fs.order.put parent (((fs.order.get parent).getD []) ++ [id]) }
+      let d : Det := folderMeta fs' { name := name, payload := payload, fid := parent, fname := [], path := [], crumbs := [], fav := false } parent
+      ({ fs := upd st.fs t fs', det := st.det.put id d, next := id + 1 }, .created id)
+  | .createFolder t name parent =>
+    let fs := st.fs t
+    if name = [] then (st, .res .invalid) else
+    match fs.items.get parent with
+    | none => (st, .res .parentNotFound)
+    | some p =>
+      if p.ty ≠ .folder then (st, .res .wrongType) else
+      if nameTaken fs parent name (some .folder) none then (st, .res .exists_) else
+      let id := st.next
+      let order1 := fs.order.put id []
+      let fs' : FS := { items := fs.items.put id { name := name, ty := .folder, parent := some parent },
+                        order := order1.put parent (((order1.get parent).getD []) ++ [id]) }
+      ({ st with fs := upd st.fs t fs', next := id + 1 }, .created id)
+  | .updateDash t id name payload newParent =>
+    let fs := st.fs t
+    match fs.items.get id with
+    | none => (st, .res .notFound)
+    | some it =>
+      let cur := it.parent
+      let moving : Bool := match newParent with | some np => decide (some np ≠ cur) | none => false
+      let r : Except Res (FS × Item) :=
+        if moving then
+          let np := newParent.getD 0
+          match fs.items.get np with
+          | none => .error .parentNotFound
+          | some p =>
+            if p.ty ≠ .folder then .error .wrongType else
+            if nameTaken fs np name (some .dash) (some id) then .error .exists_ else
+            let order1 := match cur with
+              | some c => fs.order.put c (((fs.order.get c).getD []).filter (fun x => x ≠ id))
+              | none => fs.order     -- Order[""] of the root: never read again
+            let order2 := order1.put np (((order1.get np).getD []) ++ [id])
+            let it' := { it with parent := some np }
+            .ok ({ items := fs.items.put id it', order := order2 }, it')
+        else
+          let taken : Bool := match cur with | some c => nameTaken fs c name (some .dash) (some id) | none => false
+          if decide (it.name ≠ name) && taken then .error .exists_ else .ok (fs, it)
+      match r with
+      | .error e => (st, .res e)
+      | .ok (fs1, it1) =>
+        let fs2 : FS := if it1.name ≠ name then { fs1 with items := fs1.items.put id { it1 with name := name } } else fs1
+        let pid := it1.parent.getD 0
+        let d : Det := folderMeta fs2 { name := name, payload := payload, fid := pid, fname := [], path := [], crumbs := [], fav := false } pid
+        ({ st with fs := upd st.fs t fs2, det := st.det.put id d }, .res .ok)
+  | .updateFolder t id name newParent =>
+    let fs := st.fs t
+    if id = 0 then (st, .res .invalid) else
+    match fs.items.get id with
+    | none => (st, .res .notFound)
+    | some it =>
+      let moving : Bool := match newParent with | some np => decide (some np ≠ it.parent) | none => false
+      let r : Except Res (FS × Item) :=
+        if moving then
+          let np := newParent.getD 0
+          match fs.items.get np with
+          | none => .error .parentNotFound
+          | some p =>
+            if p.ty ≠ .folder then .error .wrongType else
+            if reaches fs id (fuel fs) (some np) then .error .cycle else
+            let order1 := match it.parent with
+              | some c => (match fs.order.get c with
+                  | some l => fs.order.put c (l.filter (fun x => x ≠ id))
+                  | none => fs.order)
+              | none => fs.order
+            let order2 := order1.put np (((order1.get np).getD []) ++ [id])
+            .ok ({ fs with order := order2 }, { it with parent := some np })
+        else .ok (fs, it)
+      match r with
+      | .error e => (st, .res e)
+      | .ok (fs1, it1) =>
+        let ren : Bool := match name with | some n => decide (n ≠ it1.name) | none => false
+        let taken : Bool := match (match newParent with | some np => some np | none => it1.parent) with
+              | some p => nameTaken fs1 p (name.getD []) none (some id)
+              | none => false
+        if ren && taken then (st, .res .exists_) else
+        let it2 := if ren then { it1 with name := name.getD [] } else it1
+        (setFS st t { fs1 with items := fs1.items.put id it2 }, .res .ok)
+  | .deleteDash t id =>
+    let fs := st.fs t
+    match fs.items.get id with
+    | none => (st, .res .notFound)
+    | some it =>
+      if it.ty ≠ .dash then (st, .res .wrongType) else
+      let order1 := match it.parent with
+        | some c => (match fs.order.get c with
+            | some l => fs.order.put c (l.filter (fun x => x ≠ id))
+            | none => fs.order)
+        | none => fs.order
+      ({ st with fs := upd st.fs t { items := fs.items.del id, order := order1 }, det := st.det.del id }, .res .ok)
+  | .deleteFolder t id =>
+    let fs := st.fs t
+    if id = 0 then (st, .res .invalid) else
+    match fs.items.get id with
+    | none => (st, .res .notFound)
+    | some it =>
+      let dead := collect fs (fuel fs) id
+      let det := dead.foldl (fun d x => match fs.items.get x with
+        | some ix => if ix.ty = .dash then d.del x else d
+        | none => d) st.det
+      let order1 := match it.parent with
+        | some c => (match fs.order.get c with
+            | some l => fs.order.put c (l.filter (fun x => x ≠ id))
+            | none => fs.order)
+        | none => fs.order
+      let fs' : FS := { items := dead.foldl (fun m x => m.del x) fs.items, order := dead.foldl (fun m x => m.del x) order1 }
+      ({ st with fs := upd st.fs t fs', det := det }, .res .ok)
+  | .getDash t id =>
+    match getDash st t id with
+    | (st', none) => (st', .res .notFound)
+    | (st', some d) => (st', .dash d)
+  | .contents t id =>
+    let fs := st.fs t
+    match fs.items.get id with
+    | none => (st, .res .notFound)
+    | some it =>
+      let kids := ((fs.order.get id).getD []).filterMap (fun c =>
+        (fs.items.get c).map (fun ci => (c, ci.name, ci.ty,
+          if ci.ty = .folder then ((fs.order.get c).getD []).length else 0)))
+      (st, .folder it.name it.ty kids (crumbs fs (fuel fs) (some id)))
+  | .list t =>
+    -- every item's details are read through getDashboard (refreshing stale folder metadata on the way)
+    let fs := st.fs t
+    let (st', rows) := fs.items.foldl (fun (acc : St × List Row) e =>
+      if e.1 = 0 then acc else
+      let (s1, d) := getDash acc.1 t e.1
+      let isD := decide (e.2.ty = .dash)
+      let row : Row := {
+        id := e.1, name := e.2.name, ty := e.2.ty, parent := e.2.parent,
+        parentName := (match e.2.parent with
+          | some p => if p = 0 then [] else ((fs.items.get p).map (·.name)).getD []
+          | none => []),
+        fullPath := joinPath (pathNames fs (fuel fs) (some e.1)),
+        fav := isD && ((d.map (·.fav)).getD false),
+        payload := if isD then ((d.map (·.payload)).getD "") else "" }
+      (s1, acc.2 ++ [row])) (st, [])
+    (st', .rows rows)
+  | .favorite _ id =>
+    match st.det.get id with
+    | none => (st, .res .notFound)
+    | some d => ({ st with det := st.det.put id { d with fav := !d.fav } }, .fav (!d.fav))
+  | .restart => (st, .restarted)
+
+def run (st : St) : List Op → St × List Out
+  | [] => (st, [])
+  | op :: r =>
+    let (st1, o) := step st op
+    let (st2, os) := run st1 r
+    (st2, o :: os)
+
+def Op.tenant : Op → Option Nat
+  | .createDash t _ _ _ => some t | .createFolder t _ _ => some t | .updateDash t _ _ _ _ => some t
+  | .updateFolder t _ _ _ => some t | .deleteDash t _ => some t | .deleteFolder t _ => some t
+  | .getDash t _ => some t | .contents t _ => some t | .list t => some t | .favorite t _ => some t
+  | .restart => none
+
+end Dash
 
 end SigModel.KV
